@@ -68,26 +68,36 @@ Qed.
 
 (* Under the invariant the buffer is one of 8 * 9 concrete shapes over eight
    abstract cells, so the two refinement facts are checked shape by shape. *)
-Ltac stash_shapes s H :=
-  destruct s as [cs r v]; destruct H as (Hl & Hr & Hv);
-  cbn [cookies rd valid] in *; rewrite NCOOK_8 in *;
-  do 9 (destruct cs as [|? cs]; [simpl in Hl; try lia|]); simpl in Hl; try lia;
-  clear Hl;
-  do 8 (destruct r as [|r]; [|apply Nat.succ_lt_mono in Hr]); try lia; clear Hr;
-  do 9 (destruct v as [|v]; [|apply Nat.succ_le_mono in Hv]); try lia; clear Hv.
-
 (* store appends, and drops the oldest cookie when eight are already held *)
 Lemma abs_store : forall (s : stash C) c, stash_inv s ->
   abs dflt (store s c) = lastn NCOOK (abs dflt s ++ [c]).
 Proof.
-  intros s c H. stash_shapes s H; reflexivity.
+  intros s c H. destruct s as [cs r v]; destruct H as (Hl & Hr & Hv);
+  cbn [cookies rd valid] in *; rewrite NCOOK_8 in *;
+  do 9 (destruct cs as [|? cs]; [simpl in Hl; try lia|]); simpl in Hl; try lia;
+  clear Hl;
+  assert (r = 0 \/ r = 1 \/ r = 2 \/ r = 3 \/ r = 4 \/ r = 5 \/ r = 6 \/ r = 7)%nat as Hr' by lia;
+  assert (v = 0 \/ v = 1 \/ v = 2 \/ v = 3 \/ v = 4 \/ v = 5 \/ v = 6 \/ v = 7 \/ v = 8)%nat as Hv' by lia;
+  clear Hr Hv;
+  destruct Hr' as [-> | [-> | [-> | [-> | [-> | [-> | [-> | ->]]]]]]];
+  destruct Hv' as [-> | [-> | [-> | [-> | [-> | [-> | [-> | [-> | ->]]]]]]]];
+  reflexivity.
 Qed.
 
 (* get yields the oldest cookie and removes it *)
 Lemma abs_get : forall s : stash C, stash_inv s ->
   fst (get dflt s) = hd_error (abs dflt s) /\ abs dflt (snd (get dflt s)) = tl (abs dflt s).
 Proof.
-  intros s H. stash_shapes s H; split; reflexivity.
+  intros s H. destruct s as [cs r v]; destruct H as (Hl & Hr & Hv);
+  cbn [cookies rd valid] in *; rewrite NCOOK_8 in *;
+  do 9 (destruct cs as [|? cs]; [simpl in Hl; try lia|]); simpl in Hl; try lia;
+  clear Hl;
+  assert (r = 0 \/ r = 1 \/ r = 2 \/ r = 3 \/ r = 4 \/ r = 5 \/ r = 6 \/ r = 7)%nat as Hr' by lia;
+  assert (v = 0 \/ v = 1 \/ v = 2 \/ v = 3 \/ v = 4 \/ v = 5 \/ v = 6 \/ v = 7 \/ v = 8)%nat as Hv' by lia;
+  clear Hr Hv;
+  destruct Hr' as [-> | [-> | [-> | [-> | [-> | [-> | [-> | ->]]]]]]];
+  destruct Hv' as [-> | [-> | [-> | [-> | [-> | [-> | [-> | [-> | ->]]]]]]]];
+  split; reflexivity.
 Qed.
 
 Lemma gap_abs : forall s : stash C, stash_inv s ->
@@ -107,20 +117,20 @@ Proof. unfold stash_inv. intros s (_ & _ & Hv). rewrite length_abs. exact Hv. Qe
 Lemma lastn_lastn_app : forall (l m : list C) n,
   lastn n (lastn n l ++ m) = lastn n (l ++ m).
 Proof.
-  intros. unfold lastn. rewrite !app_length, skipn_length.
-  destruct (Nat.le_gt_cases (length l) n) as [H|H].
-  - replace (length l - n)%nat with 0%nat by lia. simpl. rewrite Nat.sub_0_r. reflexivity.
-  - replace (length l - (length l - n))%nat with n by lia.
+  intros. destruct (Nat.le_gt_cases (length l) n) as [H|H].
+  - rewrite (lastn_short l) by lia. reflexivity.
+  - unfold lastn at 1 3. rewrite !app_length, lastn_length.
+    replace (Nat.min n (length l) + length m - n)%nat with (length m) by lia.
+    unfold lastn. set (k := (length l - n)%nat).
+    assert (length (firstn k l) = k) as Hk by (rewrite firstn_length; lia).
+    assert (l ++ m = firstn k l ++ (skipn k l ++ m)) as E
+      by (rewrite app_assoc, firstn_skipn; reflexivity).
+    rewrite E.
     rewrite (skipn_app (length l + length m - n)).
-    replace (length l + length m - n - length l)%nat with (length m - n + 0)%nat at 1 by lia.
-    set (k := (length l - n)%nat).
-    rewrite skipn_app. rewrite skipn_length.
-    rewrite skipn_skipn.
-    replace (n + length m - n + k)%nat with (length l + length m - n)%nat by lia.
-    replace (n + length m - n - (length l - k))%nat with (length m - n)%nat by lia.
-    replace (length m - n + 0)%nat with (length m - n)%nat by lia.
-    replace (length l + length m - n - length l)%nat with (length m - n)%nat by lia.
-    reflexivity.
+    rewrite Hk.
+    assert (skipn (length l + length m - n) (firstn k l) = []) as E2.
+    { apply skipn_all2. rewrite Hk. subst k. lia. }
+    rewrite E2. simpl. f_equal. subst k. lia.
 Qed.
 
 Lemma inv_store_many : forall cs (s : stash C), stash_inv s -> stash_inv (fold_left store cs s).
